@@ -45,6 +45,13 @@ def status_signal(sig):
     return sig | (0x80 if sig in _CORE else 0)
 
 
+def _simulated(exc):
+    """marks an exception the real system call would raise as well (not a
+    harness bug when it shows up in a logged traceback)"""
+    exc.simulated = True
+    return exc
+
+
 class Behaviour(object):
     """How a simulated process reacts.
 
@@ -337,7 +344,7 @@ class SimKernel(object):
         if self.sig_context is not None:
             entry['ctx'] = self.sig_context()
         if not isinstance(sig, int):
-            raise TypeError("an integer is required")
+            raise _simulated(TypeError("an integer is required"))
         if sig < 0 or sig > 64:
             entry['effect'] = 'EINVAL'
             entry['seq'] = sim.rec('signal', pid, sig, 'EINVAL')
@@ -420,7 +427,8 @@ class SimKernel(object):
         """os.kill as used by Pidfile.validate"""
         self.sim.boundary('os.kill')
         if pid > 2147483647 or pid < -2147483648:
-            raise OverflowError('signed integer is greater than maximum')
+            raise _simulated(
+                OverflowError('signed integer is greater than maximum'))
         if pid <= 0:
             raise RuntimeError('os.kill on a process group: %r' % pid)
         if pid == self.getpid_value:
